@@ -19,7 +19,7 @@ CLAIMS = {
  "C11": dict(
   technique="runtime monitor against an exact integer model: real record life-time functions driven under a virtual clock (component), refresh/flush/expiry observed on the simulated wire (world)",
   text="Every TTL 1..600 (thorough ..3000) and large values up to u32::MAX are run through observation sequences (at the marks, +-1 ms around every boundary, skipping marks, with fresh copies) and each answer of the real record (expired, half-life, refresh due, written known-answer TTL) is compared with the model of the statement.",
-  note="TTL<=1 carries no refresh obligation. World-level part: refresh queries on the wire (L2; a quarter of the cases with host-name searches for the services' hosts open next to the browse), the cache-flush rule around the one-second boundary for A and AAAA records (other interface, other family, same burst) and for TXT/SRV replaced and replaced back (L3), late wake-ups (L1).",
+  note="TTL<=1 carries no refresh obligation. World-level part: refresh queries on the wire (L2; a quarter of the cases with host-name searches for the services' hosts open next to the browse), the cache-flush rule around the one-second boundary for A and AAAA records (other interface, other family, same burst, a record in its last second, a further flush within the second) and for TXT/SRV replaced and replaced back (L3), late wake-ups (L1).",
   ref="§6 C11"),
  "C16": dict(
   technique="runtime round-trip monitor: generated property lists through every input type -> ServiceInfo::new -> TXT RDATA (facade) -> independent TXT parser and the crate's public decoder, compared with the given list; end to end through a registering and a browsing daemon on one simulated link",
@@ -38,7 +38,7 @@ CLAIMS = {
   ref="§6 C12"),
  "C13": dict(
   technique="runtime trace monitor: per-channel protocol automaton over delivered events plus a wire rule (no question for a stopped type/host until a new search starts), over generated API histories observed for hours of virtual time",
-  text="Generated histories of browse / browse again / browse_cache / stop / resolve_hostname (timeouts, letter-case variants) / stop_resolve_hostname / dropped receivers / shutdown with packet arrivals, calls clustered +-1 ms around retransmission instants, watched for 20 s or 2-3 virtual hours: T1 first event SearchStarted, T2 Found before Resolved, T3 exactly one final SearchStopped (SearchTimeout first on timeout), T4 no query for the stopped name afterwards, T5 no replay from the cache on re-browse, T6 no query for a cache-only browse (also no follow-up and no new-interface query, also when it starts on an instance cached beforehand but not resolved), T7 the hooked cache holds nothing of a stopped browse (PTR of the type, SRV/TXT of its instances, addresses of their hosts; host names with capitals in half of the cases). PTR TTLs from 1 s.",
+  text="Generated histories of browse / browse again / browse_cache / stop / resolve_hostname (timeouts, letter-case variants) / stop_resolve_hostname / dropped receivers / shutdown with packet arrivals, calls clustered +-1 ms around retransmission instants, watched for 20 s or 2-3 virtual hours, a fifth of the short histories on a daemon woken up to 2, 40 or 400 ms late: T1 first event SearchStarted, T2 Found before Resolved, T3 exactly one final SearchStopped (SearchTimeout first on timeout), T4 no query for the stopped name afterwards, T5 no replay from the cache on re-browse, T6 no query for a cache-only browse (also no follow-up and no new-interface query, also when it starts on an instance cached beforehand but not resolved), T7 the hooked cache holds nothing of a stopped browse (PTR of the type, SRV/TXT of its instances, addresses of their hosts; host names with capitals in half of the cases). PTR TTLs from 1 s.",
   note="Services of browsed types live on hosts nobody resolves by name. The cache-only finding (T6) was repaired in /repo and is recorded as fixed in known_findings.json.",
   ref="§6 C13"),
  "C14": dict(
@@ -58,7 +58,7 @@ CLAIMS = {
   ref="§6 C19"),
  "C03": dict(
   technique="runtime trace monitor against a delivered-record history model: every ServiceResolved event is checked against the lives (reception, TTL, goodbye, cache-flush displacement, verify cuts) of the records actually delivered to the daemon",
-  text="Thousands of browser scenarios (1-3 scripted services, TTLs 1 s..4500 s per record type, shared hosts, several addresses, v4/v6; announce / split announce / cache-flush updates / goodbye / partial goodbye / vanish / verify / foreign records; responders answering never / always / sometimes; loss, duplication and delay; lazy, eager and oversleep stepping; horizon 3 x largest TTL): instance names with capitals and spaces; values updated and updated back right after a re-announcement: every field of every ServiceResolved must come from records delivered for that instance and live at that instant, and of several live SRV or TXT records the one received last is shown (S1-S4, S1-latest, S3-latest); the two-interface scenarios of C18 part P are judged for the interface tags of the addresses shown.",
+  text="Thousands of browser scenarios (1-3 scripted services, TTLs 1 s..4500 s per record type, shared hosts, several addresses, v4/v6; announce / split announce / cache-flush updates / goodbye / partial goodbye / vanish / verify / foreign records; responders answering never / always / sometimes; loss, duplication and delay; lazy, eager and oversleep stepping; horizon 3 x largest TTL): instance names with capitals and spaces; values updated and updated back right after a re-announcement: every field of every ServiceResolved must come from records delivered for that instance and live at that instant, and of several live SRV or TXT records the one received last is shown (S1-S4, S1-latest, S3-latest); the two-interface scenarios of C18 part P are judged for the interface tags of the addresses shown, and an address update delivered inside the announcement of a service of an unbrowsed type on the same host for the cache-flush rule.",
   note="Records keep one spelling and one cache-flush setting per identity. Same-instant deliveries are judged leniently (before/during). Trusts the history model (harness/src/model.rs).",
   ref="§6 C03"),
  "C04": dict(
@@ -93,7 +93,7 @@ CLAIMS = {
   ref="§6 C10"),
  "C17": dict(
   technique="runtime trace monitor against the delivered-record history model for address records: every AddressesFound / AddressesRemoved / SearchTimeout / SearchStopped of a hostname search judged both ways",
-  text="Hostname histories: resolve_hostname / stop with the name in any letter case, timeouts {none, 1, 999, 1000, 1500, 7000 ms, 1 h}, a responder announcing 1-2 addresses at a time (v4/v6, owner in any case, TTLs 1-120 s, one of up to two interfaces; alone or inside the announcement of a service of an unbrowsed type), goodbyes, silent loss, queries answered or not, foreign records; observed 150 s past the last call; lazy and eager stepping: reported addresses are live and complete (H1), removals on time (H2), A and AAAA asked at once and refreshed (H3), timeouts exact (H4), no question and no event after the search ended (H5).",
+  text="Hostname histories: resolve_hostname / stop with the name in any letter case, timeouts {none, 1, 999, 1000, 1001, 1003, 1500, 3002, 7000 ms, 1 h}, a responder announcing 1-2 addresses at a time (v4/v6, owner in any case, TTLs 1-120 s, one of up to two interfaces; alone or inside the announcement of a service of an unbrowsed type), goodbyes, silent loss, queries answered or not, foreign records; observed 150 s past the last call; lazy and eager stepping, a sixth of the histories on a daemon woken up to 2 or 40 ms late: reported addresses are live and complete (H1), removals on time (H2), A and AAAA asked at once and refreshed (H3), timeouts exact (H4), no question and no event after the search ended (H5).",
   note="Each address record keeps one owner spelling and one TTL; late wake-ups are C11's quantifier.",
   ref="§6 C17"),
  "C18": dict(
